@@ -493,9 +493,11 @@ def replay_known(f):
 # CURRENT source text into coq/theories/Gen/ExtentSrc.v; Proofs/ExtentSrcP.v proves every translated term equal to
 # the hand-written model for all integers; Properties/C06Src.v states it.  Policy:
 #   * a function the translator REFUSES is only reported (coverage.extra.refused) - not a violation;
-#   * a function that translates but whose equivalence lemma no longer compiles differs from the proved model on
-#     some integer input: VIOLATION, with a witness found by evaluating the translated term against the model's
-#     Python mirror on an exhaustive small box (replayable: op 'src' runs the real function on the witness).
+#   * a function that translates but whose equivalence lemma no longer compiles: the translated term is evaluated
+#     against the model's Python mirror on sampled arguments, an exhaustive small box and random points; a FOUND
+#     disagreement is a VIOLATION with that witness (replayable: op 'src' runs the real function on it); if none is
+#     found the function is reported like a refusal ("equivalence proof did not go through automatically, no
+#     disagreement found on N points") - a failed proof script alone is not evidence against the code.
 # The build of C06Src is done here (not in COQ_TARGETS) so that it can never break the main C06 targets.
 SRC_TARGET = 'theories/Properties/C06Src.vo'
 SRC_GEN = 'theories/Gen/ExtentSrc.v'
@@ -517,94 +519,10 @@ def _src_lemma_function(lemma, names):
 
 
 def extra(tier, rng):
-    import os
-    import re
+    """(the layer's logic lives in harness/gen_src.py:run_layer, shared with C02/C09/C11/C16/C20; a lemma that no
+    longer compiles WITHOUT a found disagreement is reported like a refusal, not as a violation)"""
     from .. import gen_src as G
-    lentil = C.import_lentil()
-    gen_path = os.path.join(C.COQ, SRC_GEN)
-    res = G.write(C.REPO, gen_path, lentil=lentil, rng=rng)
-    results = res['results']
-    translated = [n for n, r in results.items() if r['status'] == 'translated']
-    report = {'what': 'source-to-Gallina translation of the integer index arithmetic, proved equal to the model',
-              'translated': translated,
-              'refused': {n: r['reason'] for n, r in results.items() if r['status'] == 'refused'},
-              'functions': {n: f'{r["file"]}:{r["func"]} - {r["doc"]}' for n, r in results.items()},
-              'source_sha256': res['hashes'], 'translated_functions_sha256': res['function_hashes'],
-              'generated_file_changed': res['changed'],
-              'selfcheck_vs_running_code': {n: results[n].get('selfcheck_compared', 0) for n in translated},
-              'proved': 0}
-    violations = []
-    bad = C.hygiene([SRC_TARGET])
-    if bad:
-        violations.append({'case': None, 'impl': None,
-                           'what': f'translation layer: forbidden construct in the Coq files of C06Src: {bad}'})
-        return {'report': report, 'violations': violations}
-    for _ in range(4):
-        rc, out = C.coq_make([SRC_TARGET])
-        # a concurrent check on another tree (VERIF_REPO) may have regenerated the file in between: build again
-        if open(gen_path).read() == res['text']:
-            break
-        G.write(C.REPO, gen_path, lentil=None, rng=rng)
-    src_p = re.sub(r'\(\*.*?\*\)', '', open(os.path.join(C.COQ, SRC_PROOFS)).read(), flags=re.S)
-    lemmas = re.findall(r'^\s*Lemma\s+(src_\w+)', src_p, flags=re.M)
-    per_fn = {n: [l for l in lemmas if _src_lemma_function(l, list(results)) == n] for n in results}
-    if rc == 0:
-        pa = C.print_assumptions('C06Src')
-        report['theorems'] = pa['theorems']
-        report['axioms'] = pa['axioms']
-        ok = (pa['rc'] == 0 and not pa['unknown'] and pa['theorems'] and len(pa['printed']) >= len(pa['theorems']))
-        if not ok:
-            violations.append({'case': None, 'impl': None,
-                               'what': 'translation layer: Properties/C06Src.v does not check cleanly '
-                                       f'(rc={pa["rc"]}, unknown axioms {pa["unknown"]}); no failing input found'})
-        else:
-            report['proved'] = sum(1 for t in pa['theorems']
-                                   if _src_lemma_function(t.replace('C06_src_', 'src_'), translated))
-            report['proved_functions'] = [n for n in translated if per_fn.get(n)]
-        return {'report': report, 'violations': violations}
-    # ---- an equivalence lemma (or something it needs) no longer compiles
-    f, lemma, msg = C.first_error(out)
-    fn = _src_lemma_function(lemma, list(results)) if f == SRC_PROOFS else None
-    report['broken'] = {'file': f, 'lemma': lemma, 'function': fn, 'error': (msg or '')[:600]}
-    if f == SRC_PROOFS and lemma in lemmas:
-        report['proved'] = sum(1 for l in lemmas[:lemmas.index(lemma)]
-                               if _src_lemma_function(l, translated))
-    found = {}
-    for n in translated:
-        w, desc = G.find_witness(n, results[n], res['pyfuncs'][n], rng)
-        if w:
-            found[n] = (w, desc)
-    if fn in translated and fn not in found:          # look harder for the function whose lemma broke
-        w, desc = G.find_witness(fn, results[fn], res['pyfuncs'][fn], rng, exhaustive_budget=6000000, n_random=200000)
-        if w:
-            found[fn] = (w, desc)
-        else:
-            violations.append({'case': None, 'impl': None,
-                               'what': f'translation layer: lemma {lemma} ({results[fn]["file"]}:{results[fn]["func"]} '
-                                       f'= model, for all integers) no longer compiles, but no failing input found: the '
-                                       f'translated term agrees with the model mirror on {desc}. Coq: {(msg or "")[:300]}'})
-    for n, (w, desc) in found.items():
-        r = results[n]
-        case = _src_case(n, w)
-        impl = run_impl(case)
-        violations.append({'case': case, 'impl': impl,
-                           'what': f'translation layer: the integer arithmetic of {r["file"]}:{r["func"]} ({r["doc"]}) '
-                                   f'differs from the proved model: arguments {C.jsonable(w["args"])} give '
-                                   f'{C.jsonable(w["source"])} by the source, {C.jsonable(w["model"])} by the model'
-                                   + (f' (lemma {lemma} no longer compiles)' if n == fn else '')})
-    if not found and fn not in translated:
-        violations.append({'case': None, 'impl': None,
-                           'what': f'translation layer: the build of {SRC_TARGET} fails in {f} ({lemma}); no translated '
-                                   f'function differs from its model mirror on the searched boxes; no failing input '
-                                   f'found. Coq: {(msg or "")[:300]}'})
-    report['witnesses'] = {n: C.jsonable(w) for n, (w, _) in found.items()}
-    # the runner prints at most five violations (those of the correspondence come first): keep the witnesses of
-    # this layer replayable on their own
-    report['witness_replays'] = [C.write_replay(ID, {'property': ID, 'kind': 'failing input (translation layer)',
-                                                     'case': C.jsonable(v['case']), 'impl_result': C.jsonable(v['impl']),
-                                                     'what': v['what'], 'how_to_replay': './check replay <this file>'})
-                                 for v in violations if v.get('case')]
-    return {'report': report, 'violations': violations}
+    return G.run_layer('C06', ID, tier, rng, C)
 
 
 # replay support for the witnesses of the translation layer: op 'src' runs the REAL function on the witness
